@@ -3,15 +3,57 @@
 import json, os
 VERIF = os.path.dirname(os.path.dirname(os.path.abspath(__file__)))
 
+TECH_M = 'MIR-to-SMT symbolic execution of the real functions (binding audit: callees uninterpreted, z3 decides path feasibility and the negated requirement per path)'
 CLAIMS = {
+ 'C01': dict(
+   text='Bounded symbolic verification (binding audit): every acyclic path of decode_compact/flattened/general, expand_payload, decode_signature, DecodedHeaders, '
+        'JwsValidationItem::verify and Jwk::check_alg is executed from the freshly dumped MIR with callee results unconstrained; z3 decides per requirement whether a '
+        'feasible accepting path exists that does not bind signing input / signature / claims / alg / key to the bytes received. Candidates are replayed natively.',
+   note='Trusted: rustc MIR dump, mir2smt and its core-function models, z3. Outside: serde parsing, cryptographic verifiers, byte-level base64url (K part, thorough).',
+   technique=TECH_M, ref='DESIGN.md section 2 C01'),
+ 'C02': dict(
+   text='Binding audit of validate / verify_signature_with_verifier / parse_jwk / verify_decoded_signature plus semantic evaluation of the validation-unit iterator '
+        'chain of validate_decoded_credential over all unit outcomes, fail-fast modes and option presences (222 paths): accepted iff every unit passed, errors identify failures.',
+   note='Trusted as C01. Outside: JSON, crypto, bodies of check_structure / subject-holder / status units, resolve_method (C04).',
+   technique=TECH_M, ref='DESIGN.md section 2 C02'),
+ 'C03': dict(
+   text='Binding audit of JwtPresentationValidator::validate (all 100+ paths, closures inlined) and CoreDocument::verify_jws: accepted only with verify_jws on the holder '
+        'document, iss == document id, inclusive exp/issuance bounds against the right options, consistency conversion, returned values are the signed ones.',
+   note='Trusted as C01. Outside: JSON, crypto, check_consistency body (C07), resolve_method (C04).',
+   technique=TECH_M, ref='DESIGN.md section 2 C03'),
+ 'C10': dict(
+   text='M kernels: the five DID character classes equal the W3C/RFC 3986 ABNF sets for every Unicode scalar value; M audit: every constructor of the plain DID type '
+        'passes check_validity, DID-URL split validates and clears parts, join/setters validate before mutating; K (thorough): local validators on 3 symbolic bytes.',
+   note='Trusted as C01 plus Kani/CBMC. Outside: the third-party did_url_parser on multi-position adversarial strings (its %XX index bug is described in DESIGN.md), did:jwk.',
+   technique=TECH_M + '; Kani/CBMC harnesses for the loop-carrying validators', ref='DESIGN.md section 2 C10'),
+ 'C11': dict(
+   text='M: validate_jws_headers is the conjunction of its three validators on (protected, unprotected); is_disjoint formulas over all presence patterns of all header '
+        'fields; validate_b64; encoder gates; recipient b64 agreement. K: validate_crit decision table per concrete crit list with symbolic header presence bits.',
+   note='Trusted as C01 plus Kani/CBMC. Outside: header parameter values, custom-parameter maps.',
+   technique=TECH_M + '; Kani/CBMC for validate_crit', ref='DESIGN.md section 2 C11'),
  'C12': dict(
    text='Bounded symbolic verification: StatusList2021::{set,get,len} translated from the freshly dumped MIR into SMT (arrays + bit-vectors) and '
         'decided by z3 (cvc5 cross-check) for a list of ANY length <= 2^60 bytes, every usize index and both values: panic freedom, Ok iff in range, '
-        'read-after-write equals the bit-vector model for every other index. Counterexamples are replayed natively before being reported.',
-   note='Trusted: rustc MIR dump, the mir2smt translator and its models of the listed core functions, z3/cvc5. Outside: gzip+base64 encoding, credential-level '
-        're-encoding, check_status_with_status_list_2021.',
-   technique='MIR-to-SMT symbolic execution (path enumeration, z3 verdict per path); Kani/CBMC harnesses in the thorough tier',
+        'read-after-write equals the bit-vector model for every other index; one-way revocation through MutStatusList and the credential. Counterexamples are replayed natively.',
+   note='Trusted: rustc MIR dump, the mir2smt translator and its models of the listed core functions, z3/cvc5. Outside: gzip+base64 encoding (uninterpreted codec pair), '
+        'check_status_with_status_list_2021.',
+   technique='MIR-to-SMT symbolic execution (path enumeration, z3 verdict per path); Kani/CBMC harnesses on the public API',
    ref='DESIGN.md section 2 C12'),
+ 'C13': dict(
+   text='K: range gate, unix round trip, order and checked arithmetic for all seconds in windows round both range ends and 0; M: every constructor (parse, serde, FromStr, '
+        'checked_add/sub) routes through the range gate and none uses a panicking offset conversion.',
+   note='Trusted as C01 plus Kani/CBMC. Outside: RFC 3339 text parser/formatter of the time crate, mid-range dates.',
+   technique='Kani/CBMC over the compiled code in stated windows; ' + TECH_M, ref='DESIGN.md section 2 C13'),
+ 'C14': dict(
+   text='M: StateMetadataDocument::unpack decided byte-precisely for inputs of every length (marker, version, encoding, 16-bit LE length, exact body slice, trailing bytes '
+        'ignored, no panic); add_flags_to_message header bytes and 16-bit gate; rebasing closures rewrite only the placeholder / self id and are wired to the right fields.',
+   note='Trusted as C01. Outside: JSON body, CoreDocument::try_map/map_unchecked applying the closures (iterator code).',
+   technique=TECH_M, ref='DESIGN.md section 2 C14'),
+ 'C16': dict(
+   text='Binding audit of validate_key_binding_jwt (171 blocks, 100+ paths: typ, holder key in scope, signature, sd_hash, nonce, aud, iat window, no reachable panic), '
+        'SD-JWT verify_signature (signature before disclosures, decoded claims feed the credential, issuer == kid DID) and validate_credential (same units as plain JWTs).',
+   note='Trusted as C01. Outside: SdObjectDecoder::decode, hashing, JSON, crypto.',
+   technique=TECH_M, ref='DESIGN.md section 2 C16'),
 }
 
 NA = {
@@ -42,8 +84,8 @@ def main():
       'version': 1,
       'setup_cmd': 'bin/setup',
       'hooks': {
-        'guard': 'cfg(kani)',
-        'enable': 'cargo kani sets --cfg kani for the whole build graph; the hook modules are `#[cfg(kani)] pub mod verif_hooks;`',
+        'guard': 'cargo feature `verif-hooks` (off by default) on the hooked crates',
+        'enable': 'the harness crate /verif/kani and the replay crate /verif/replay depend on the /repo crates with features = ["verif-hooks"]; hook modules are `#[cfg(feature = "verif-hooks")] pub mod verif_hooks;`',
         'baseline_off_cmd': 'cd /repo && cargo nextest run --workspace --no-fail-fast --offline',
         'source_commits': json.load(open(os.path.join(VERIF, 'findings', 'hook_commits.json'))) if os.path.exists(os.path.join(VERIF, 'findings', 'hook_commits.json')) else [],
         'add_only': True,
